@@ -36,6 +36,11 @@ class ctype(dr.ComponentType):
 
 KINDS = ["none", "required", "group1", "optional", "group2"]
 OUTCOMES = ["value", "skip", "content_error", "crash"]
+SEED_KINDS = ["int", "none", "empty"]
+
+
+def _seed_value(kind, i=0):
+    return {"none": None, "empty": [], "int": ("seed", i)}[kind]
 
 
 class World(object):
@@ -128,14 +133,14 @@ def reach(world, targets):
     return seen
 
 
-def run_world(n, edges, outcomes, seeded, mode, disabled=(), order_hint=None):
+def run_world(n, edges, outcomes, seeded, mode, disabled=(), seed_kinds=None):
     """Concrete run on whatever dr is imported (used natively for replay / sample validation)."""
     w = World(n, edges, lambda i: outcomes.get(i, "value"), lambda i: 1000 + i)
     broker = dr.Broker()
     broker.add_observer(w.observer, ctype)
     seeds = {}
     for i in seeded:
-        seeds[i] = ("seed", i)
+        seeds[i] = _seed_value((seed_kinds or {}).get(str(i), "int"), i)
         broker[w.comps[i]] = seeds[i]
     for i in disabled:
         dr.set_enabled(w.comps[i], False)
@@ -145,7 +150,7 @@ def run_world(n, edges, outcomes, seeded, mode, disabled=(), order_hint=None):
     in_graph = reach(w, targets)
     bad = check_log(w, in_graph, set(seeded))
     for i in seeded:
-        if broker.get(w.comps[i]) is not seeds[i]:
+        if broker.instances.get(w.comps[i], "absent") is not seeds[i]:
             bad.append("seed value of %d was overwritten" % i)
     return w, broker, bad
 
@@ -182,8 +187,10 @@ def make_o2(n, kinds, modes):
             broker = dr.Broker()
             broker.add_observer(w.observer, ctype)
             seeds = {}
+            seed_kind = {}
             for i in seeded:
-                seeds[i] = en.fresh_int("seed%d" % i)
+                seed_kind[i] = SEED_KINDS[en.choice("seedkind%d" % i, len(SEED_KINDS))]
+                seeds[i] = en.fresh_int("seed%d" % i) if seed_kind[i] == "int" else _seed_value(seed_kind[i])
                 broker[w.comps[i]] = seeds[i]
             enabled = {}
             for i in range(n):
@@ -192,7 +199,7 @@ def make_o2(n, kinds, modes):
             targets = list(range(n)) if mode == "all" else [n - 1]
             en.note_sample(lambda mv: {"n": n, "edges": [[i, j, k] for (i, j), k in sorted(edges.items())],
                                        "outcomes": dict((str(i), o) for i, o in chosen.items()), "seeded": seeded,
-                                       "mode": mode, "disabled": [i for i in range(n) if not mv.bool(enabled[i])],
+                                       "seed_kinds": dict((str(i), k) for i, k in seed_kind.items()), "mode": mode, "disabled": [i for i in range(n) if not mv.bool(enabled[i])],
                                        "log": [list(x) for x in w.log]})
             raised = None
             with oset.symbolic_order():
@@ -202,14 +209,15 @@ def make_o2(n, kinds, modes):
                     raised = ex
             case = lambda mv: {"kind": "run", "n": n, "edges": [[i, j, k] for (i, j), k in sorted(edges.items())],  # noqa
                                "outcomes": dict((str(i), o) for i, o in chosen.items()), "seeded": seeded, "mode": mode,
+                               "seed_kinds": dict((str(i), k) for i, k in seed_kind.items()),
                                "disabled": [i for i in range(n) if not mv.bool(enabled[i])], "log": [list(x) for x in w.log]}
             en.must_hold(raised is None, "run-returns", case, detail=repr(raised))
             in_graph = reach(w, targets)
             bad = check_log(w, in_graph, set(seeded))
             en.must_hold(not bad, "once-and-ordered", case, detail=bad)
             for i in seeded:
-                got = broker.get(w.comps[i])
-                ok = isinstance(got, core.SInt) and (got is seeds[i] or got == seeds[i])
+                got = broker.instances.get(w.comps[i], "absent")
+                ok = got is seeds[i] or (isinstance(got, core.SInt) and seed_kind[i] == "int" and got == seeds[i])
                 en.must_hold(ok, "seed-kept", case, detail="seed of component %d replaced" % i)
             if not seeded:
                 en.must_hold(True, "seed-kept")
@@ -336,7 +344,7 @@ def obligations(tier):
                    replay="toposort", check_sample=True),
         Obligation("O2-run", make_o2(n2, kinds2, ["all", "last"]), ["run-returns", "once-and-ordered", "seed-kept"],
                    desc="dr.run end to end on generated component graphs",
-                   bounds={"components": n2, "edge kinds": kinds2, "outcomes": OUTCOMES, "pre-seeded": "any subset",
+                   bounds={"components": n2, "edge kinds": kinds2, "outcomes": OUTCOMES, "pre-seeded": "any subset; seed value a symbolic int, None or an empty list",
                            "enabled": "symbolic boolean per component stored in dr.ENABLED", "targets": "all components / last component"},
                    stubs=stubs, outside=["load_components import machinery", "graphs with more than %d components" % n2],
                    encoded=enc, budget_s=600 if thorough else 120, replay="run", check_sample=True),
@@ -385,7 +393,8 @@ def _native_case(case):
     if case["kind"] == "run" or "edges" in case and "mode" in case:
         edges = dict(((i, j), k) for i, j, k in case["edges"])
         outcomes = dict((int(i), o) for i, o in case["outcomes"].items())
-        w, b, bad = run_world(case["n"], edges, outcomes, case["seeded"], case["mode"], disabled=case.get("disabled", ()))
+        w, b, bad = run_world(case["n"], edges, outcomes, case["seeded"], case["mode"], disabled=case.get("disabled", ()),
+                              seed_kinds=case.get("seed_kinds"))
         return w, bad
     raise ValueError(case)
 
